@@ -269,7 +269,39 @@ def run(ctx, repo):
                     else:
                         ctx.finding('O-search', '%s::%s::%s.search' % (rel, q, pt[0]), rel, n.lineno,
                                     '%s.search() on a pattern that is not anchored at the start: search and match differ' % pt[0])
-            for kind, arg, arms, node in if_chains(fn):
+            chains_here = list(if_chains(fn))
+            if not chains_here and 1 <= len([a for a in fn.args.args if a.arg not in ('self', 'cls')]) <= 1:
+                # a classifier not written as an if-chain / loop over a literal table (a named table, next(...), tests merged with `or`):
+                # its decision list is reconstructed by probing the folded function
+                try:
+                    from .. import fold as _fold2
+                    tab_, none_out = _fold2.probe_first_match(fn, dict(repo.folded(rel)[0]), None)
+                except Exception:
+                    tab_ = []
+                if len(tab_) >= 2 and all(isinstance(nm_, str) and nm_ in P.parsed for nm_, _r, _o in tab_):
+                    n_chains += 1
+                    tests_ = result_classes(repo, fn.name)
+                    for i in range(len(tab_)):
+                        for j in range(i + 1, len(tab_)):
+                            (pi, _ri, oi), (pj, _rj, oj) = tab_[i], tab_[j]
+                            if oi == oj:
+                                continue
+                            if tests_ and None not in tests_ and oi[0] == oj[0] == 'returns' and all((oi[1] in t) == (oj[1] in t) for t in tests_):
+                                continue        # the callers treat the two answers alike (e.g. track and road are both timed)
+                            Li, Lj = P.dfa(pi), P.dfa(pj)
+                            w = P.wit(rx.inter(Li, Lj))
+                            desc = '%s::%s probed classifier: %s before %s' % (rel, q, pi, pj)
+                            if w is None:
+                                ctx.ok('O-dispatch', desc, 'disjoint')
+                                continue
+                            sub, w2 = P.subset(Li, Lj)
+                            if sub:
+                                ctx.ok('O-dispatch', desc, 'earlier ⊆ later (specific before general)')
+                            else:
+                                ctx.finding('O-dispatch', '%s::%s::%s/%s' % (rel, q, pi, pj), rel, fn.lineno,
+                                            'arms %s and %s give different results but both match %r, and %s is not the more specific one '
+                                            '(%r is only in %s): the answer depends on the order' % (pi, pj, w, pi, w2, pi), w)
+            for kind, arg, arms, node in chains_here:
                 n_chains += 1
                 tests = result_classes(repo, fn.name) if kind == 'loop classifier' else []
 
